@@ -17,7 +17,8 @@ an entry of the linear fit's inside/outside/normalisers that is 0, subnormal-sma
 inf or NaN where the logarithmic fit holds a finite value below -600 / above 600 (or, if the
 linear run raised, such extreme finite values in the logarithmic fit). Agreement is counted as
 a pass regardless; a disagreement without such evidence is a violation. The marginal
-likelihood is only compared when |loglik| < 690.
+likelihood is compared whenever the linear one is a normal positive float; a 0/inf/NaN
+linear likelihood is accepted only if |loglik| > 600.
 
 Calibration (unchanged tree, 5 quick runs = 7 200 cases, label histograms `maxerr*` /
 `maxerr_lossy*` in the evidence): where linear space lost nothing the worst relative difference
@@ -279,15 +280,19 @@ def check(case, ctx):
                                      f"{np.asarray(a)[w]!r} vs logarithmic {np.asarray(b)[w]!r}"))
     # marginal likelihood: exp(loglik) vs lik
     lg = float(llog)
-    if abs(lg) < 690:
-        with np.errstate(all="ignore"):
-            ll = float(np.log(float(llin)))
-        errs.append(abs(ll - lg) / max(1.0, abs(lg)))
-        if not abs(ll - lg) <= TOL * max(1.0, abs(lg)):
-            out.append(Violation(f"{method}:likelihood", f"linear likelihood {float(llin)!r} (log {ll!r}) vs "
+    lin_l = float(llin)
+    if np.isfinite(lin_l) and lin_l > FLOOR:
+        ll = float(np.log(lin_l))
+        err = abs(ll - lg) / max(1.0, abs(lg)) if np.isfinite(lg) else np.inf
+        errs.append(err)
+        if not err <= TOL:
+            out.append(Violation(f"{method}:likelihood", f"linear likelihood {lin_l!r} (log {ll!r}) vs "
                                  f"logarithmic {lg!r}"))
+    elif np.isfinite(lg) and abs(lg) > EXTREME:
+        ctx.label("likelihood_beyond_double_range")  # exp(loglik) is not representable: out of domain
     else:
-        ctx.label("likelihood_beyond_double_range")
+        out.append(Violation(f"{method}:likelihood_unrepresented", f"linear likelihood {lin_l!r} although the "
+                             f"logarithmic one is {lg!r}"))
     if out:
         if lost:
             ctx.discard("out_of_domain:linear_lost_information")
